@@ -596,7 +596,7 @@ struct TreeEngine : Engine
         if (prop == "C03") v.push_back("iterator checks run only on trees that pass the C01/C02 structural check (a malformed tree is attributed to C01/C02 and counted as precondition_failed here)");
         return v;
     }
-    uint64_t default_runs(std::string const &prop, int tier) const override { (void)prop; return tier ? 1000000 : 20000; }
+    uint64_t default_runs(std::string const &prop, int tier) const override { (void)prop; return tier ? 16000000 : 200000; }
 };
 
 Engine *make_engine() { return new TreeEngine(); }
